@@ -539,6 +539,25 @@ def binop(I, op, l: Any, r: Any, st, node=None) -> list:
                 pass
     if isinstance(op, ast.Sub) and isinstance(l, frozenset) and isinstance(r, frozenset):
         return [(l - r, st)]
+    if isinstance(op, (ast.Sub, ast.BitAnd, ast.BitOr, ast.BitXor)):
+        # set algebra on heap sets / frozensets of hashable scenario values (element order of the left operand, then the right, is kept: the result is a set, its order is not observable)
+        def elems(x):
+            if isinstance(x, frozenset):
+                return sorted(x, key=repr)
+            if isinstance(x, Ref) and st.obj(x).kind == "set" and not st.obj(x).setlike:
+                return list(st.obj(x).items)
+            return None
+        le, re_ = elems(l), elems(r)
+        if le is not None and re_ is not None and all(hashable(x) and is_concrete(x) for x in le + re_):
+            if isinstance(op, ast.Sub):
+                out = [x for x in le if x not in re_]
+            elif isinstance(op, ast.BitAnd):
+                out = [x for x in le if x in re_]
+            elif isinstance(op, ast.BitOr):
+                out = le + [x for x in re_ if x not in le]
+            else:
+                out = [x for x in le if x not in re_] + [x for x in re_ if x not in le]
+            return [(st.alloc(HObj("set", items=dedupe(out))), st)]
     if isinstance(l, Opaque) or isinstance(r, Opaque):
         return [(Opaque("binop"), st)]
     st.note(f"binary operator {type(op).__name__} on {type(l).__name__}/{type(r).__name__}")
